@@ -254,6 +254,20 @@ def check(model, rep):
         if i.rule in ('C10.effects', 'C10.atomic'):       # every relation function: none but the worm mating may touch the flag
             (rep.holds if i.status == 'HOLDS' else (rep.violation if i.status == 'VIOLATION' else rep.cannot))(
                 'C13.flag-source.mating.' + i.rule.split('.')[1], i.construct, i.detail, i.loc)
+    # "while held, all speeds and accelerations are zero and positions stay constant": the clamp zeroes the STORED speed and
+    # acceleration, so the hold relies on the integrator advancing the state from exactly those stored values, and on a
+    # continued run stepping from the recorded state (C03's Euler rules, C12's continuation rule re-read there)
+    if not getattr(check, '_skip_c03', False):
+        from checks import c03
+        dep = Report('C03')
+        c03.check._skip_c13 = True
+        try:
+            c03.check(model, dep)
+        except CannotDecide as e:
+            rep.cannot('C13.clamp.integration', 'Solver.run', str(e))
+        finally:
+            c03.check._skip_c13 = False
+        rep.absorb(dep, {'C03.euler': 'C13.clamp.integration'})
     rep.require('C13.lock-table', 2)
     rep.require('C13.only-if', 2)
     rep.require('C13.clamp', 2)
